@@ -18,6 +18,14 @@ Theorem C09_apply_length : forall src from to repl, from <= to -> to <= String.l
 Proof. exact apply_edit_length. Qed.
 Print Assumptions C09_apply_length.
 
+(* "That place" in the fixed file: every byte outside the range is found again at its mapped offset
+   (the offset the harness re-analyses at); offsets inside the range have no image. *)
+Theorem C09_map_pos_same_byte : forall src from to repl p q, from <= to -> to <= String.length src ->
+  map_pos from to (String.length repl) p = Some q ->
+  String.get q (apply_edit src from to repl) = String.get p src.
+Proof. exact map_pos_same_byte. Qed.
+Print Assumptions C09_map_pos_same_byte.
+
 (* The comment-formatting fix inserts exactly one space after the marker and clears the diagnostic. *)
 Theorem C09_comment_fix_local : forall t, has_prefix "//" t = true ->
   take 2 (cf_fix t) = "//" /\ drop 3 (cf_fix t) = drop 2 t /\ String.length (cf_fix t) = S (String.length t).
